@@ -71,6 +71,7 @@ func init() {
 		"Delete":        modelStoreDelete,
 		"MustMarshal":   modelMarshal,
 		"MustUnmarshal": modelUnmarshal,
+		"Unmarshal":     modelTryUnmarshal,
 	}
 }
 
@@ -362,4 +363,36 @@ func (ex *Exec) noOpenIterator(st *State, store string, in ssa.Instruction) {
 			ex.addObl("frame", "write-during-iteration", ex.propsOf(), st, "false", ex.pos(in), "store write while an iterator over the same store is open")
 		}
 	}
+}
+
+// codec.Unmarshal (the variant that returns an error): either it fails (the target is then unspecified) or it
+// succeeds and the target holds the decoded value - the same decoding function as MustUnmarshal.
+func modelTryUnmarshal(ex *Exec, fr *Frame, st *State, com *ssa.CallCommon, recv Val, args []Val, in ssa.Instruction) ([]Outcome, bool) {
+	if !isCodec(com.Value.Type()) {
+		return nil, false
+	}
+	mi, ok := com.Args[1].(*ssa.MakeInterface)
+	if !ok {
+		return nil, false
+	}
+	p := ex.val(fr, st, mi.X)
+	pt, isPtr := mi.X.Type().Underlying().(*types.Pointer)
+	if !isPtr || p.P == nil || p.P.Cell == nil {
+		return nil, false
+	}
+	sort := ex.u.SortOf(pt.Elem())
+	_, um := ex.u.MarshalFn(sort)
+	bz := ex.pure(args[0], com.Args[0].Type(), st)
+	// failure
+	stF := st.clone()
+	errV := ex.u.Fresh("unmarshal.err", "Iface")
+	stF.assume(fmt.Sprintf("(not (= %s iface.nil))", errV))
+	fv := ex.u.Fresh("unmarshal.partial", sort)
+	stF.assume(ex.u.WellTyped(pt.Elem(), fv, 0))
+	ex.store(p.P, fv, stF, "unmarshal-failed")
+	// success
+	t := fmt.Sprintf("(%s %s)", um, bz)
+	st.assume(ex.u.WellTyped(pt.Elem(), t, 0))
+	ex.store(p.P, t, st, "unmarshal")
+	return []Outcome{{st: st, results: []Val{{T: "iface.nil"}}}, {st: stF, results: []Val{{T: errV}}}}, true
 }
